@@ -173,6 +173,9 @@ class Term:
     def resolved(self):
         return self.j.get("res")
 
+    def generic_idx(self):
+        return self.func.const.get("g", []) if self.func is not None and self.func.const else []
+
     @property
     def trait(self):
         return self.j.get("trait")
@@ -251,6 +254,9 @@ class Fn:
 
     def ty(self, idx):
         return self.crate.types[idx]
+
+    def callee_generics(self, term):
+        return [self.crate.types[i] for i in term.generic_idx()]
 
     def glue(self, term):
         return self.crate.glues[term.j["glue"]]
@@ -753,7 +759,7 @@ class Slice:
             [c.get("v", c.get("item")) for c in self.consts], sorted(self.upvars))
 
 
-def backslice(fn, start, mode="prov", extra_transparent=None, through_clone=True, max_steps=20000, stop_at=None):
+def backslice(fn, start, mode="prov", extra_transparent=None, through_clone=True, max_steps=20000, stop_at=None, opaque=None):
     """Backward slice of `start` (Operand | Place | local index | list of those).
 
     mode == 'prov' : follow copies, moves, borrows, field projections, casts and *transparent* calls only — the
@@ -768,6 +774,7 @@ def backslice(fn, start, mode="prov", extra_transparent=None, through_clone=True
     refuses = fn.ref_uses()
     arguses = fn.arg_uses()
     extra = re.compile("|".join(extra_transparent)) if extra_transparent else None
+    opaque_rx = re.compile(opaque) if opaque else None
     work = []
 
     def push_place(pl):
@@ -846,6 +853,8 @@ def backslice(fn, start, mode="prov", extra_transparent=None, through_clone=True
             elif kind == "call":
                 t = payload
                 sl.calls.append((b, t))
+                if opaque_rx is not None and t.callee and opaque_rx.search(t.callee):
+                    continue  # a root: recorded, but its arguments are not part of the value
                 if mode == "dep" or is_transparent(t.callee, through_clone, extra):
                     for a in t.args:
                         push_op(a)
@@ -860,6 +869,8 @@ def backslice(fn, start, mode="prov", extra_transparent=None, through_clone=True
                     continue
                 for (cb, ai, t) in arguses.get(tl, []):
                     if fn.blocks[cb].cleanup:
+                        continue
+                    if opaque_rx is not None and t.callee and opaque_rx.search(t.callee):
                         continue
                     sl.calls.append((cb, t))
                     for j, a in enumerate(t.args):
